@@ -571,10 +571,20 @@ class SafetyAnalyzer(ast.NodeVisitor):
         }
     )
 
+    # Names under which standard-library modules keep builtins/io around
+    MODULE_ALIAS_ATTRS = frozenset({"builtins", "bltns", "_io", "__builtins__"})
+
     def visit_Attribute(self, node: ast.Attribute) -> None:
         # Flag dangerous attribute access even without call
         if node.attr in self.REFLECTION_ATTRS:
             self._add(node, "reflection", f"dangerous attribute: {node.attr}")
+        elif (
+            node.attr.lstrip("_") in DANGEROUS_MODULES
+            or node.attr in self.MODULE_ALIAS_ATTRS
+        ):
+            # A safe module's own import of a dangerous one: random._os, calendar.sys,
+            # json.codecs.sys - the module object is as good as an import of it
+            self._add(node, "import", f"dangerous module via attribute: {node.attr}")
         elif isinstance(node.ctx, ast.Load) and node.attr in DANGEROUS_ATTRS:
             # Any reference, not only a call: w = json.codecs.open; w(path, "w")
             self._add(node, "method", f"dangerous method: {node.attr}")
